@@ -43,7 +43,8 @@ pub assume_specification<T> [bool::then_some::<T>] (b: bool, t: T) -> (r: Option
 
 pub type RuntimeResult<T> = Result<T, RuntimeViolation>;
 /// what `self.stats.borrow()` gives access to
-pub struct StatsRef { pub timeout: Option<Instant> }
+/// (the fields of RuntimeStats a body of check_timeout could consult)
+pub struct StatsRef { pub timeout: Option<Instant>, pub ud_calls: usize, pub size: usize }
 pub struct StatsCell { pub s: StatsRef }
 impl StatsCell {
     pub fn borrow(&self) -> (r: &StatsRef) ensures *r == self.s { &self.s }
